@@ -1,85 +1,8 @@
 (* C07 proofs, part 4: the three expression mappers satisfy wspec. *)
 From Coq Require Import List ZArith NArith String Ascii Bool Arith Lia Permutation.
 Import ListNotations.
-From Dagrt Require Import Lang LangProofs Sched Transform TransformSem TransformBasics TransformHoist
+From Dagrt Require Import Lang LangProofs Sched Transform TransformSem TransformSide TransformBasics TransformHoist
      TransformSpec.
-
-(* ------------------------------------------------------------------------------------ *)
-(* syntactic side conditions                                                              *)
-
-(* every call carries one value per keyword *)
-Fixpoint arity_ok (e : expr) : bool :=
-  match e with
-  | ENot a => arity_ok a
-  | EIf c t f => arity_ok c && arity_ok t && arity_ok f
-  | EBin _ a b => arity_ok a && arity_ok b
-  | ENary o l =>
-      forallb arity_ok l &&
-      match o with NCall _ kw => (List.length kw <=? List.length l)%nat | _ => true end
-  | _ => true
-  end.
-
-Fixpoint sorted_keys (l : list string) : bool :=
-  match l with
-  | a :: (b :: _) as r => String.leb a b && sorted_keys r
-  | _ => true
-  end.
-
-(* keyword arguments are written in sorted order (so sorted(kw.items()) changes nothing) *)
-Fixpoint kw_sorted (e : expr) : bool :=
-  match e with
-  | ENot a => kw_sorted a
-  | EIf c t f => kw_sorted c && kw_sorted t && kw_sorted f
-  | EBin _ a b => kw_sorted a && kw_sorted b
-  | ENary o l =>
-      forallb kw_sorted l && match o with NCall _ kw => sorted_keys kw | _ => true end
-  | _ => true
-  end.
-
-Definition is_var (e : expr) : bool := match e with EVar _ => true | _ => false end.
-
-(* the argument isolator leaves e alone: every call has variables as arguments *)
-Fixpoint fai_clean (e : expr) : bool :=
-  match e with
-  | ENot a => fai_clean a
-  | EIf c t f => fai_clean c && fai_clean t && fai_clean f
-  | EBin _ a b => fai_clean a && fai_clean b
-  | ENary o l =>
-      forallb fai_clean l && match o with NCall _ _ => forallb is_var l | _ => true end
-  | _ => true
-  end.
-
-(* generic: nothing that `clean` rejects occurs in a conditionally evaluated position
-   (branch of a conditional expression, later operand of and/or) *)
-Section Ok.
-  Variable clean : expr -> bool.
-  Variable if_branches_lazy : bool.     (* false for the expander, which guards the branches *)
-  Fixpoint strict_ok (e : expr) : bool :=
-    match e with
-    | ENot a => strict_ok a
-    | EIf c t f =>
-        strict_ok c && (if if_branches_lazy then clean t && clean f else strict_ok t && strict_ok f)
-    | EBin _ a b => strict_ok a && strict_ok b
-    | ENary o l =>
-        if is_lazy o
-        then match l with [] => true | a :: r => strict_ok a && forallb clean r end
-        else forallb strict_ok l
-    | _ => true
-    end.
-End Ok.
-
-Fixpoint has_if (e : expr) : bool :=
-  match e with
-  | ENot a => has_if a
-  | EIf _ _ _ => true
-  | EBin _ a b => has_if a || has_if b
-  | ENary _ l => existsb has_if l
-  | _ => false
-  end.
-
-Definition fai_ok : expr -> bool := strict_ok fai_clean true.
-Definition fci_ok : expr -> bool := strict_ok (fun e => negb (has_call e)) true.
-Definition ite_ok : expr -> bool := strict_ok (fun e => negb (has_if e)) false.
 
 (* ------------------------------------------------------------------------------------ *)
 (* lists                                                                                  *)
